@@ -1,7 +1,7 @@
 --------------------------- MODULE TraceUtxoEffects ---------------------------
 (* Trace validation for C31 (impl -> spec).  One event per decoded            *)
 (* transaction and validity flag:                                             *)
-(*  {"ev":"tx","src":..,"flag":"orig"|"flipped",                              *)
+(*  {"ev":"tx","seq":k,"src":..,"flag":"orig"|"flipped",   (k = event number) *)
 (*   "tx":{era, valid, inputs:[[t,i]..], collateral:[[t,i]..], outputs:[id..], collret:id|0}, *)
 (*        projected by the harness from the wire bytes (t = rank of the       *)
 (*        transaction id among the ids of this transaction, so the order of   *)
@@ -23,6 +23,7 @@ TInit == l = 1
 TTx ==
     /\ IsEvent("tx")
     /\ LET r == Rec[l]  tx == r.tx IN
+         /\ r.seq = l
          /\ ValidOK(tx, r.is_valid)
          /\ ConsumesOK(tx, r.consumes)
          /\ ProducesOK(tx, r.produces)
